@@ -16,7 +16,8 @@ and for every configuration every (chain, entry point, path form) case:
   entry points: write_image/read_image, Image.write/Image.read(align_corners=flag), Image.to_uri/from_uri;
   path forms str, pathlib.Path, file:// URI.
 Oracle: voxel values equal exactly (value-wise, and the dtype is the stored dtype), channel count, size;
-origin / spacing / direction within float32/text precision (64 ulp(float32) x scale).
+origin / spacing / direction within float32 precision (8 ulp(float32); the grid menu includes values that need all
+9 significant digits, a large-magnitude origin and spacings down to 1e-3).
 """
 from __future__ import annotations
 
@@ -44,16 +45,22 @@ RULE = (
 EXPLANATION = "exhaustive enumeration of the I/O configuration space with write->read chains judged against numpy/SimpleITK"
 ASSUMPTIONS = [
     "SimpleITK 2.5 (ITK MetaIO / NIfTI / NRRD readers and writers) and numpy are the trusted base; a format/dtype that SimpleITK itself cannot write or does not preserve is counted as undefined for the s2d direction",
-    "header tolerances: 64 x 2^-23 x (|origin| + extent) for origin, 64 x 2^-23 relative for spacing, 64 x 2^-23 absolute for direction cosines (NIfTI stores float32 sform/quaternion)",
+    "header tolerances (copies, not computations): 8 ulp(float32) = 8 x 2^-23 x (|center| + extent) for origin (origin<->center conversions inside Grid, worst case 5.5 ulp), 8 x 2^-23 relative for spacing, 8 x 2^-23 absolute for direction cosines; measured <= 0.7 ulp; grids 'scan' and 'fine' need all 9 significant digits",
     "values must be equal exactly and the returned dtype must be the stored dtype (all five listed dtypes are native in every listed format)",
     "sizes <= 7 per axis; .nia is excluded (neither nibabel nor SimpleITK handle it)",
 ]
-MIN_NONTRIVIAL = {"quick": 5000, "thorough": 20000}
-MIN_OUTCOMES = {"quick": 550, "thorough": 2300}
-MIN_SUB_TRACES = {"d2d": 2000, "s2d": 2000, "flow": 300}
+MIN_NONTRIVIAL = {"quick": 9000, "thorough": 35000}
+MIN_OUTCOMES = {"quick": 900, "thorough": 3800}
+MIN_SUB_TRACES = {"d2d": 4500, "s2d": 4500, "flow": 800}
 
 EPS32 = 2.0 ** -23
-C = 64.0
+C = 64.0  # computed quantities (flow vector conversions)
+# Header fields are COPIES, not computations: a float32 attribute is printed / stored and parsed again. The only
+# arithmetic is origin <-> center inside Grid (two conversions of D+2 roundings each at magnitude |center| + extent,
+# plus input rounding: <= (2D+5)/2 ulp = 5.5 ulp for D = 3) and, for NIfTI, direction*spacing products and column norms
+# (<= 2.5 ulp). Tolerance 8 ulp(float32); measured on the unchanged tree <= 0.7 ulp for every format, stage and seed.
+# A header written with 6 significant digits ("%g") is off by up to 42 ulp.
+HDR_K = 8.0
 NP_DT = {"uint8": np.uint8, "int16": np.int16, "int32": np.int32, "float32": np.float32, "float64": np.float64}
 TORCH_DT = {"uint8": torch.uint8, "int16": torch.int16, "int32": torch.int32, "float32": torch.float32, "float64": torch.float64}
 
@@ -77,9 +84,18 @@ def grid_spec(D, size, gk, seed):
     dirs = rg.direction_menu(D, seed)
     if gk == "default":
         return {"size": list(size), "spacing": [1.0] * D, "center": [0.0] * D, "direction": None, "ac": True}
+    if gk == "scan":  # scanner-like values that need all 9 significant digits of a float32; generic rotation
+        return {"size": list(size), "spacing": [1.2345649, 0.98765432, 2.3456789][:D], "origin": [-123.456789, 98.7654321, 1234.56489][:D],
+                "direction": dirs["rot"], "ac": True}
+    if gk == "fine":  # tiny spacings (1e-2 .. 1e-3) and small origin with 9 significant digits; signed permutation
+        return {"size": list(size), "spacing": [0.012345678, 0.0012345649, 0.0045678912][:D], "origin": [0.123456789, -0.0123456489, 1.23456789][:D],
+                "direction": dirs["perm"], "ac": True}
     sp = [0.5, 1.25, 2.0][:D]
     org = [10.5, -3.25, 100.0][:D]
     return {"size": list(size), "spacing": sp, "origin": org, "direction": dirs["perm" if gk == "perm" else "rot"], "ac": True}
+
+
+GRID_KINDS = ("default", "perm", "rot", "scan", "fine")
 
 
 def configs(tier, seed):
@@ -89,7 +105,7 @@ def configs(tier, seed):
             for Cn in (1, 2, 3):
                 for dt in NP_DT:
                     for size in sizes(D, tier):
-                        for gk in ("default", "perm", "rot"):
+                        for gk in GRID_KINDS:
                             for compress in (True, False):
                                 out.append({"fmt": fmt, "D": D, "C": Cn, "dt": dt, "size": list(size), "gk": gk,
                                             "grid": grid_spec(D, size, gk, seed), "compress": compress, "seed": seed})
@@ -98,7 +114,7 @@ def configs(tier, seed):
 
 def bounds(tier):
     return {
-        "formats": formats(tier), "D": [2, 3], "channels": [1, 2, 3], "dtypes": list(NP_DT), "grids": ["default", "perm", "rot"],
+        "formats": formats(tier), "D": [2, 3], "channels": [1, 2, 3], "dtypes": list(NP_DT), "grids": list(GRID_KINDS),
         "compress": [True, False], "sizes": {"2": [list(s) for s in sizes(2, tier)], "3": [list(s) for s in sizes(3, tier)]},
         "configurations": len(configs(tier, 0)), "chains": ["d2d", "s2d", "flow"],
         "entry_points": ["write_image/read_image", "Image.write/Image.read", "Image.to_uri/Image.from_uri", "Grid.from_file", "FlowField.write/read"],
@@ -190,11 +206,11 @@ def header_problems(D, size, origin, spacing, direction, r: RefGrid):
     if not np.array_equal(np.asarray(size, dtype=np.float64), r.n):
         return [("grid-size", f"size {list(size)} expected {r.n.tolist()}")]
     sc = r.scale()
-    if np.any(np.abs(origin - r.origin) > C * EPS32 * sc):
+    if np.any(np.abs(origin - r.origin) > HDR_K * EPS32 * sc):
         out.append(("origin", f"origin {np.asarray(origin).tolist()} expected {r.origin.tolist()}"))
-    if np.any(np.abs(spacing - r.s) > C * EPS32 * r.s):
+    if np.any(np.abs(spacing - r.s) > HDR_K * EPS32 * r.s):
         out.append(("spacing", f"spacing {np.asarray(spacing).tolist()} expected {r.s.tolist()}"))
-    if np.any(np.abs(direction - r.R) > C * EPS32):
+    if np.any(np.abs(direction - r.R) > HDR_K * EPS32):
         out.append(("direction", f"direction {np.asarray(direction).reshape(-1).tolist()} expected {r.R.reshape(-1).tolist()}"))
     return out
 
@@ -392,7 +408,7 @@ def run_d2d(cfg, entry: str, pform: str, tmp: str) -> Rec:
     else:
         o1 = g_1.origin().double().numpy()
         sc = r1.scale()
-        if tuple(g_1.size()) != h[0] or np.any(np.abs(h[1] - o1) > 4 * EPS32 * sc) or np.any(np.abs(h[2] - r1.s) > 4 * EPS32 * r1.s) or np.any(np.abs(h[3] - r1.R) > 4 * EPS32):
+        if tuple(g_1.size()) != h[0] or np.any(np.abs(h[1] - o1) > HDR_K * EPS32 * sc) or np.any(np.abs(h[2] - r1.s) > HDR_K * EPS32 * r1.s) or np.any(np.abs(h[3] - r1.R) > HDR_K * EPS32):
             rec.add(f"{pre}/r2/fixpoint-grid/grid={cfg['gk']}", f"second round changed the grid: origin {h[1].tolist()} vs {o1.tolist()}, spacing {h[2].tolist()} vs {r1.s.tolist()}")
     rec.completed = True
     return rec
